@@ -784,6 +784,22 @@ def r7_12(ctx):
         if fi.module not in ("client", "mbox", "fetch", "user_server", "server", "pop3_client", "pop3_server"):
             continue
         for js, h in _trailing_blank_sites(fi.node):
+            # a module-level constant list with elements (CAPABILITIES) is never empty
+            a0 = h.args[0] if h.args else None
+            if isinstance(a0, ast.Name):
+                try:
+                    cv = p.module_constant(fi.module, a0.id)
+                except Exception:  # noqa: BLE001
+                    cv = None
+                if cv is None:
+                    for mod in p.modules:
+                        try:
+                            cv = p.module_constant(mod, a0.id)
+                            break
+                        except Exception:  # noqa: BLE001
+                            continue
+                if isinstance(cv, (ast.List, ast.Tuple, ast.Set)) and cv.elts:
+                    continue
             n += 1
             ctx.analysed(fi)
             ctx.bad("R7.12", fi.module, fi.qual, norm(js, 80), "the line ends `SP <joined list> CRLF`: with an empty list the response ends in a blank (`* SEARCH ` CRLF is not `\"SEARCH\" *(SP nz-number)`)", js.lineno)
